@@ -526,3 +526,123 @@ def run_order(tpl):
         return out
     finally:
         out["wall_s"] = round(time.time() - t0, 2)
+
+
+# ---------------------------------------------------------------------- C32: every reachable runtime-error site surfaces as a VTL error
+def classify_exception(e):
+    """-> ('vtl', code) for a VTLEngineException carrying a catalogued code, ('vtl-nocode', class) for one without,
+    ('raw', class) for anything else"""
+    from vtlengine.Exceptions import VTLEngineException
+    from vtlengine.Exceptions.messages import centralised_messages
+    if isinstance(e, VTLEngineException):
+        code = e.args[1] if len(e.args) > 1 else None
+        if code in centralised_messages:
+            return "vtl", code
+        return "vtl-nocode", type(e).__name__
+    return "raw", type(e).__name__
+
+
+def site_class(tag):
+    """error-site class used in finding keys: the VTL code of an error() macro call, or the DuckDB kernel"""
+    m = re.search(r"(\d-\d-\d+-\d+)", tag)
+    if tag.startswith("error:") and m:
+        return "macro-" + m.group(1)
+    return re.sub(r"[^A-Za-z0-9_.:-]+", "_", tag)[:60]
+
+
+def run_errors(tpl):
+    """For one template: every runtime-error site of the emitted SQL (error() calls of the macros, DuckDB kernel domain errors,
+    BIGINT overflow) -> is it reachable from a valid input (solver)? if so, what escapes the real run() for the witness?"""
+    t0 = time.time()
+    out = dict(id=tpl["id"], status="ok", subs=[], solver_s=0.0, notes=[])
+    try:
+        from vt.sqlsmt import equiv, harness as H
+        from vt.sqlsmt.sym import Unsupported
+        from vt.astb import render
+        from vt import realrun as R
+        out["script"] = render(tpl["ast"])
+        opts = dict(tpl.get("opts") or {})
+        opts["int64"] = True
+        opts.pop("int_bound", None)
+        case = H.Case(tpl["id"], tpl["ast"], tpl["structs"], nrows=tpl.get("nrows", 2), scalars=tpl.get("scalars"),
+                      scalar_values=tpl.get("scalar_values"), opts=opts, evaluator_cls=_evaluator(tpl)).build()
+        try:
+            case.encode()
+        except (Unsupported, sqlglot_errors.ParseError) as e:
+            # SQL outside the encoder (or not SQL at all): no verdict; auxiliary probe of the real engine on a few concrete valid inputs - a raw
+            # failure there is a failure of the real code and is reported (class: statement SQL rejected by DuckDB)
+            case.opts.pop("int64", None)
+            info = case.probe_real(seed=int(os.environ.get("VERIF_SEED") or 0))
+            if info is not None:
+                exc = (re.match(r"raw (\w+)", info["observed"]) or [None, "?"])[1]
+                out["subs"].append(dict(id="%s:emitted-sql" % tpl["id"], tag="emitted-sql", script=out["script"], solver_s=0.0, verdict="concrete", status="violated",
+                                        inputs=info["inputs"], observed=info["observed"], key="C32:emitted-sql:%s:raw-%s" % (tpl["id"].split(".")[-1], exc),
+                                        what="run() lets %s escape" % info["observed"][:200]))
+                return out
+            out.update(status="not_encoded", reason="SQL: %s" % str(e)[:200])
+            return out
+        ctx = case.ctx
+        cells, skipped, mism = case.selfcheck(samples=tpl.get("samples", 4), seed=int(os.environ.get("VERIF_SEED") or 0), err_overapprox=True)
+        out["selfcheck"] = dict(cells=cells, mismatches=len(mism))
+        if mism:
+            out.update(status="harness_error", reason="encoding (incl. error events) disagrees with real DuckDB on concrete tables: %s" % json.dumps(mism[0], default=str)[:600])
+            return out
+        sites = {}
+        for cond, tag in ctx.errors:
+            if tag.startswith("nonfinite"):
+                continue
+            sites.setdefault(tag, []).append(cond)
+        out["sites"] = sorted(sites)
+        for tag, conds in sorted(sites.items()):
+            sub = dict(id="%s:%s" % (tpl["id"], site_class(tag)), tag=tag, script=out["script"])
+            s = z3.Solver()
+            s.set("timeout", tpl.get("timeout_ms", 20000))
+            s.add(*ctx.assume)
+            s.add(z3.Or(*conds))
+            t = time.time()
+            r = s.check()
+            dt = time.time() - t
+            out["solver_s"] += dt
+            sub["solver_s"] = round(dt, 3)
+            sub["verdict"] = str(r)
+            if r == z3.unsat:
+                sub.update(status="discharged", how="site unreachable from any valid input within the bound")
+            elif r != z3.sat:
+                sub.update(status="undecided")
+            else:
+                fired = False
+                for attempt in range(4):
+                    m = s.model()
+                    subs = equiv.model_subs(case, m)
+                    cin, dfs = equiv.frames(case, subs)
+                    sub["inputs"] = H._jsonable(cin)
+                    try:
+                        kw = dict(tpl.get("run_kw") or {})
+                        if opts.get("tp_format"):
+                            kw["time_period_output_format"] = opts["tp_format"]
+                            sub["run_kw"] = kw
+                        R.run_ast(case.ast, case.struct_dict, dfs, **kw)
+                    except Exception as e:  # noqa
+                        fired = True
+                        kind, name = classify_exception(e)
+                        sub["observed"] = "%s %s: %s" % (kind, name, str(e)[:160])
+                        if kind == "vtl":
+                            sub.update(status="discharged", how="reachable; surfaces as VTL error %s" % name)
+                        else:
+                            sub.update(status="violated", key="C32:%s:%s-%s" % (site_class(tag), kind, name),
+                                       what="run() lets %s escape (site %s)" % (sub["observed"], tag))
+                        break
+                    # the real engine did not execute the failing expression for this witness: ask for a different one
+                    s.add(z3.Or(*[v != m.eval(v, model_completion=True) for v in ctx.input_vars if not z3.is_string(v)][:40]))
+                    if s.check() != z3.sat:
+                        break
+                if not fired:
+                    sub.update(status="lazy", note="the site fires in the encoding only: DuckDB does not evaluate the failing expression for the witnesses tried "
+                                                   "(projection pruned / evaluated after a later filter); no exception escapes")
+            out["subs"].append(sub)
+        return out
+    except Exception as e:  # noqa
+        out.update(status="harness_error", reason="driver exception %s: %s" % (type(e).__name__, str(e)[:300]), tb=traceback.format_exc()[-1500:])
+        return out
+    finally:
+        out["wall_s"] = round(time.time() - t0, 2)
